@@ -153,7 +153,7 @@ func New(name string, k int, seed int64) *Palette {
 		p.vals = mkvals(false)
 	case "long":
 		pre := bytes.Repeat([]byte{'p'}, 299)
-		all := enumerate([]byte{0x00, 0x7f, 0x80, 0xff}, 2)
+		all := enumerate([]byte{0x00, 0x01, 0x7f, 0x80, 0xff}, 2)
 		sel := pick(all, n, rng, false)
 		for _, s := range sel {
 			p.pos = append(p.pos, append(append([]byte(nil), pre...), s...))
